@@ -99,26 +99,79 @@ package kvql
 //
 // list(...) / int_list(...) / float_list(...) hold their arguments in order.
 //@ func funcIntList(kv KVPair, args []Expression, ctx *ExecuteCtx) (ret any, err error)
-//@   props C10
+//@   props C10 C05
+//@   requires[C05] coherent: coherent(ctx, val(kv.Key), val(kv.Value)) && wfCtx(ctx) && wfRefs()
+//@   ensures[C05] coherent: coherent(ctx, val(kv.Key), val(kv.Value))
 //@   ghost k Int
 //@   requires forall i Int :: 0 <= i && i < len(args) ==> args[i] != nil
 //@   assigns ctx.Hit, mapof(ctx.FieldCaches)
 //@   ensures[C10] defined: err == nil ==> is(ret, []int64) && len(as(ret, []int64)) == len(args)
 //@   ensures[C10] inorder: err == nil && 0 <= k && k < len(args) && isInt(av(args, k, kv)) ==> as(ret, []int64)[k] == intof(av(args, k, kv))
 //@   loop 0
+//@     invariant[C05] coherent: coherent(ctx, val(kv.Key), val(kv.Value))
 //@     invariant 0 <= i && i <= len(args) && len(ret) == len(args) && fresh(ret)
 //@     invariant 0 <= k && k < i && isInt(av(args, k, kv)) ==> ret[k] == intof(av(args, k, kv))
 //
 //@ func funcFloatList(kv KVPair, args []Expression, ctx *ExecuteCtx) (ret any, err error)
-//@   props C10
+//@   props C10 C05
+//@   requires[C05] coherent: coherent(ctx, val(kv.Key), val(kv.Value)) && wfCtx(ctx) && wfRefs()
+//@   ensures[C05] coherent: coherent(ctx, val(kv.Key), val(kv.Value))
 //@   ghost k Int
 //@   requires forall i Int :: 0 <= i && i < len(args) ==> args[i] != nil
 //@   assigns ctx.Hit, mapof(ctx.FieldCaches)
 //@   ensures[C10] defined: err == nil ==> is(ret, []float64) && len(as(ret, []float64)) == len(args)
 //@   ensures[C10] inorder: err == nil && 0 <= k && k < len(args) && is(av(args, k, kv), float64) ==> as(ret, []float64)[k] == fltof(av(args, k, kv))
 //@   loop 0
+//@     invariant[C05] coherent: coherent(ctx, val(kv.Key), val(kv.Value))
 //@     invariant 0 <= i && i <= len(args) && len(ret) == len(args) && fresh(ret)
 //@     invariant 0 <= k && k < i && is(av(args, k, kv), float64) ==> ret[k] == fltof(av(args, k, kv))
+//
+// join(sep, ...) row form: frame and cache coherence only (strings.Join is not modelled).
+//@ func funcJoin(kv KVPair, args []Expression, ctx *ExecuteCtx) (ret any, err error)
+//@   props C05
+//@   requires len(args) >= 1 && (forall i Int :: 0 <= i && i < len(args) ==> args[i] != nil)
+//@   requires[C05] coherent: coherent(ctx, val(kv.Key), val(kv.Value)) && wfCtx(ctx) && wfRefs()
+//@   ensures[C05] coherent: coherent(ctx, val(kv.Key), val(kv.Value))
+//@   assigns ctx.Hit, mapof(ctx.FieldCaches)
+//@   loop 0
+//@     invariant[C05] coherent: coherent(ctx, val(kv.Key), val(kv.Value))
+//@     invariant fresh(vals) && len(vals) == len(args) - 1
+//@     use rangeindex + 2
+//
+// The vector forms of join / int_list / float_list evaluate one row at a time; the per-row cache of
+// the execution context belongs to no row of the chunk, so the row forms must run without it.
+//@ func funcJoinVec(chunk []KVPair, args []Expression, ctx *ExecuteCtx) (ret []any, err error)
+//@   props C05 C03
+//@   requires len(args) >= 1 && (forall i Int :: 0 <= i && i < len(args) ==> args[i] != nil)
+//@   requires[C05] wf: wfCtx(ctx) && wfRefs()
+//@   assigns ctx.Hit, mapof(ctx.FieldCaches)
+//@   ensures own: err == nil ==> fresh(ret) && len(ret) == len(chunk)
+//@   loop 0
+//@     invariant 0 <= i && i <= len(chunk) && fresh(ret) && len(ret) == len(chunk)
+//
+//@ func funcIntListVec(chunk []KVPair, args []Expression, ctx *ExecuteCtx) (ret []any, err error)
+//@   props C05 C03 C10
+//@   ghost r Int, k Int
+//@   requires forall i Int :: 0 <= i && i < len(args) ==> args[i] != nil
+//@   requires[C05] wf: wfCtx(ctx) && wfRefs()
+//@   assigns ctx.Hit, mapof(ctx.FieldCaches)
+//@   ensures own: err == nil ==> fresh(ret) && len(ret) == len(chunk)
+//@   ensures[C10, C03] rows: err == nil && 0 <= r && r < len(chunk) ==> is(ret[r], []int64) && len(as(ret[r], []int64)) == len(args) && (0 <= k && k < len(args) && isInt(av(args, k, chunk[r])) ==> as(ret[r], []int64)[k] == intof(av(args, k, chunk[r])))
+//@   loop 0
+//@     invariant 0 <= i && i <= len(chunk) && fresh(ret) && len(ret) == len(chunk)
+//@     invariant[C10, C03] rows: 0 <= r && r < i ==> is(ret[r], []int64) && len(as(ret[r], []int64)) == len(args) && (0 <= k && k < len(args) && isInt(av(args, k, chunk[r])) ==> as(ret[r], []int64)[k] == intof(av(args, k, chunk[r])))
+//
+//@ func funcFloatListVec(chunk []KVPair, args []Expression, ctx *ExecuteCtx) (ret []any, err error)
+//@   props C05 C03 C10
+//@   ghost r Int, k Int
+//@   requires forall i Int :: 0 <= i && i < len(args) ==> args[i] != nil
+//@   requires[C05] wf: wfCtx(ctx) && wfRefs()
+//@   assigns ctx.Hit, mapof(ctx.FieldCaches)
+//@   ensures own: err == nil ==> fresh(ret) && len(ret) == len(chunk)
+//@   ensures[C10, C03] rows: err == nil && 0 <= r && r < len(chunk) ==> is(ret[r], []float64) && len(as(ret[r], []float64)) == len(args) && (0 <= k && k < len(args) && is(av(args, k, chunk[r]), float64) ==> as(ret[r], []float64)[k] == fltof(av(args, k, chunk[r])))
+//@   loop 0
+//@     invariant 0 <= i && i <= len(chunk) && fresh(ret) && len(ret) == len(chunk)
+//@     invariant[C10, C03] rows: 0 <= r && r < i ==> is(ret[r], []float64) && len(as(ret[r], []float64)) == len(args) && (0 <= k && k < len(args) && is(av(args, k, chunk[r]), float64) ==> as(ret[r], []float64)[k] == fltof(av(args, k, chunk[r])))
 //
 // Indexing with [n] returns element n (counting from 0) of any list value.
 //@ func (e *FieldAccessExpr) execListAccess(idx int, left any) (fval any, err error)
